@@ -375,13 +375,36 @@ def read_blocks(reader, a, b, ch, sub_channel=None):
     return list(d.items())
 
 
-def check_read(cfg, model, reader, ch, a, b):
-    """Compare reader.read(a, b) with the model.  Returns None or failure text."""
+def check_read(cfg, model, reader, ch, a, b, again=True):
+    """Compare reader.read(a, b) with the model.  Returns None or failure text.
+
+    The caller then does what applications do with a result - works on it in place (here: overwrites it) - and asks the
+    same question once more: what a reader returns must come from the files, not from what the caller did to an
+    earlier result."""
+    r = _check_read_once(cfg, model, reader, ch, a, b, scribble=again)
+    if r is None and again and b - a < 200000:
+        r = _check_read_once(cfg, model, reader, ch, a, b, scribble=False)
+        if r is not None:
+            r = (r[0], r[1] + " [second read of the same range, after the caller had overwritten the first result in place]")
+    return r
+
+
+def _check_read_once(cfg, model, reader, ch, a, b, scribble):
     exp = model.expected_blocks(a, b)
     try:
         got = read_blocks(reader, a, b, ch)
     except Exception as e:
         return ("read-exception", "read(%d,%d): %s: %s" % (a, b, type(e).__name__, e))
+    try:
+        return _compare_read(cfg, got, exp, a, b)
+    finally:
+        if scribble:
+            for _k, arr in got:
+                if hasattr(arr, "flags") and arr.flags.writeable and arr.flags.c_contiguous:
+                    arr.view("u1")[...] = 0x5A
+
+
+def _compare_read(cfg, got, exp, a, b):
     if len(got) != len(exp):
         gk = [int(k) for k, _ in got]
         ek = [e[0] for e in exp]
